@@ -544,14 +544,28 @@ fn lang(
     node: dom::XmlNode,
     _: &mut model::Context,
 ) -> error::Result<model::Value> {
-    let name = String::try_from(args.first().unwrap())?;
+    let name = String::try_from(args.first().unwrap())?.to_ascii_lowercase();
 
-    let mut n = Some(node);
+    // The language of the context node is the value of the xml:lang attribute on the nearest
+    // element (the node itself or an ancestor) that has one; it matches when it is equal to the
+    // argument or a sublanguage of it (`en` matches `en-US`), ignoring case.
+    let mut n = match node {
+        dom::XmlNode::Element(_) => Some(node),
+        _ => node.parent_node(),
+    };
     while let Some(dom::XmlNode::Element(element)) = n {
-        // FIXME: namespace
-        if let Some(attr) = element.get_attribute_node("lang") {
-            if attr.value()? == name {
-                return Ok(model::Value::Boolean(true));
+        if let Some(attrs) = element.attributes() {
+            for attr in attrs.iter() {
+                if let Some((local, _, uri)) = attr.as_expanded_name()? {
+                    if local == "lang" && uri.as_deref() == Some("http://www.w3.org/XML/1998/namespace") {
+                        let value = attr.value()?.to_ascii_lowercase();
+                        let matched = value == name
+                            || value
+                                .strip_prefix(name.as_str())
+                                .is_some_and(|v| v.starts_with('-'));
+                        return Ok(model::Value::Boolean(matched));
+                    }
+                }
             }
         }
 
